@@ -78,11 +78,24 @@ func edBlocksSorted(fs *modfile.FileSyntax, goV string, work bool) (sig, info st
 		}
 		for i := 0; i+1 < len(b.Line); i++ {
 			if less(b.Line[i+1].Token, b.Line[i].Token) {
-				return "c16-block-order:" + name, "go " + goV + ": " + strings.Join(b.Line[i].Token, " ") + " before " + strings.Join(b.Line[i+1].Token, " ")
+				if strings.HasSuffix(name, ":go-prerelease") {
+					// the recorded finding is exactly: lexical order is used for a pre-release go version
+					for j := 0; j+1 < len(b.Line); j++ {
+						if edLexLess(b.Line[j+1].Token, b.Line[j].Token) {
+							name = "exclude"
+						}
+					}
+				}
+				s, inf := "c16-block-order:"+name, "go "+goV+": "+strings.Join(b.Line[i].Token, " ")+" before "+strings.Join(b.Line[i+1].Token, " ")
+				if !edKnownCause(s) {
+					return s, inf
+				}
+				sig, info = s, inf
+				break
 			}
 		}
 	}
-	return "", ""
+	return sig, info
 }
 
 // edMarker: does the end-of-line comment text carry the indirect marker, and what is the rest?
@@ -260,10 +273,19 @@ func edCheckC16(work bool, file string, ops []edOp) (sig, info string) {
 	if re.Go != nil {
 		goV = re.Go.K[0]
 	}
+	knownSig, knownInfo := "", ""
+	defer func() {
+		if sig == "" {
+			sig, info = knownSig, knownInfo
+		}
+	}()
 	if s, i := edBlocksSorted(reFS, goV, work); s != "" {
-		return s, i
+		if !edKnownCause(s) {
+			return s, i
+		}
+		knownSig, knownInfo = s, i
 	}
-	if s, i := edBlocksSorted(fs, goV, work); s != "" {
+	if s, i := edBlocksSorted(fs, goV, work); s != "" && !edKnownCause(s) {
 		return s + ":in-memory", i
 	}
 	// comments of kept lines (on the in-memory tree: a re-parse may attach a comment followed by a blank
